@@ -429,9 +429,12 @@ example :
     (EndToEnd.formattedTraces EndToEnd.exEnv {} {} (fun _ => some ⟨false, [], none, none, none⟩) file).2 = none := by
   decide +kernel
 
-/-! ### Translation tie: the source text of `seek_until` and of `parse_v3` up to the end of its chunk loop
+/-! ### Translation tie: the source text of `seek_until` and of the WHOLE `parse_v3`
 
-  (`tools/gen_pyir_rd.py` → `Gen/PyIRRd.lean`, IR and interpreter `Model/PyIRRd`; see `Props/C02`.) -/
+  (`tools/gen_pyir_rd.py` → `Gen/PyIRRd.lean`, IR and interpreter `Model/PyIRRd`; see `Props/C02`.)  Nothing of
+  `parse_v3` is hand-modelled apart from what it CALLS: the construct parsers (`Aligned(8, kd_header_v3)`,
+  `kd_v3_threadmap`, `Int64ul`, `kd_v3_additional_data` = `greedyRange blockElem`), `plistlib.loads` (the parameter
+  `plist`) and `OsLogEvent.from_raw_log_event` (`fromRawLog`). -/
 
 /-- **The translated source is the program the refinement lemmas were proved for.** -/
 theorem source_is_expected_ir : Gen.PyIRRd.prog = PyIRRd.Expected.prog ∧ Gen.PyIRRd.notes = [] := by decide
@@ -443,9 +446,26 @@ theorem seek_until_ir_eq_model (tag : Bytes) (r : Reader) :
     PyIRRd.runSeek Gen.PyIRRd.prog.seekUntil tag r = seekUntil tag r := by
   rw [source_is_expected_ir.1]; exact PyIRRd.runSeek_expected tag r
 
-/-- **`parse_v3`, interpreted up to the end of its chunk loop, then the hand-modelled tail, is `parseV3`** — header,
-    realignment read, both scans, thread-map chunk, `set_thread_map`, and the chunk loop with `size // 64` records
-    per chunk and the MORE continuation — for every reader state and prior parser state. -/
+/-- **The tail of `parse_v3`, interpreted, is `tailV3`**: what the translated generator does behind its chunk loop —
+    `reader.seek(-8, 1)`, `kd_v3_additional_data.parse_stream(reader)`, the five attribute resets, the block loop with
+    its `if / elif` chain on `block.tag` (`dyld_modules` seeded by `update` when empty and `['Binaries']` extended
+    otherwise, `trace_codes +=` the decoded payload, `processes` / `images` replaced, kernel-extension binaries and raw log
+    events accumulated, the string index inverted), then the log loop (`from_raw_log_event`, both tables extended when the
+    record names a process and a thread, `yield`) — from ANY state (reader, tables, parser attributes, local variables)
+    that has yielded the records `evs`: the same outputs in the same order, the same exception, tables, attributes and
+    reader as the model's `tailV3`. -/
+theorem parse_v3_tail_ir_eq_model (plist : Bytes → Option PView) (evs : List Kevent) (env : PyIRRd.Env) (t : Tables)
+    (m : V3Meta) (r : Reader) :
+    PyIRRd.runFrom (Gen.PyIRRd.prog.params fromKdBuf plist) Gen.PyIRRd.prog.parseV3.afterLoop
+        ⟨env, r, t, t, m, evs.map .ev⟩ =
+      tailV3 plist evs t m r := by
+  rw [source_is_expected_ir.1]
+  exact PyIRRd.tail_exec (PyIRRd.Expected.prog.params fromKdBuf plist) evs ⟨env, r, t, t, m, evs.map .ev⟩ rfl rfl
+
+/-- **The WHOLE `parse_v3`, interpreted, is `parseV3`** — header, realignment read, both scans, thread-map chunk,
+    `set_thread_map`, the chunk loop with `size // 64` records per chunk and the MORE continuation, and the tail
+    (`parse_v3_tail_ir_eq_model`) — for every reader state and prior parser state.  `viaV3` is nothing but the translated
+    generator run to its end. -/
 theorem parse_v3_ir_eq_model (plist : Bytes → Option PView) (prior : PState) (r : Reader) (g : r.pos ≤ r.data.length) :
     parseV3 plist fromKdBuf prior r = PyIRRd.viaV3 Gen.PyIRRd.prog plist fromKdBuf prior r := by
   rw [source_is_expected_ir.1]
@@ -460,5 +480,39 @@ theorem parse_is_interpreted_source (plist : Bytes → Option PView) (prior : PS
 example : (PyIRRd.runSeek Gen.PyIRRd.prog.seekUntil [1, 2, 3] (Reader.ofBytes [9, 1, 2, 1, 2, 3, 7])).1.toOption = some () ∧
     (PyIRRd.runSeek Gen.PyIRRd.prog.seekUntil [1, 2, 3] (Reader.ofBytes [9, 1, 2, 1, 2, 3, 7])).2 =
       { data := [9, 1, 2, 1, 2, 3, 7], pos := 6, calls := 4, got := 6, req := 6 } := by decide
+
+/-- `exFile` with a trace-codes block, a string-index block and (last, unpadded) a log block -/
+def exFileLogs : V3File :=
+  { exFile with
+    blocks := [⟨TRACEV3_TRACE_CODES, [0x41, 0x0a], true⟩, ⟨TRACEV3_LOG_STRINGS, [0x53], true⟩,
+               ⟨TRACEV3_LOG_EVENTS, [0x4c], false⟩] }
+
+/-- `plistlib.loads` for `exFileLogs`: the cpu_info payload, a string index `{'hi': 5, 'p': 6}`, two raw log events
+    (message 5 on thread 9 of process 6 = `p`, pid 77; message 5 without thread and process) -/
+def exPlistLogs : Bytes → Option PView := fun b =>
+  if b = [0x62, 0x70] then some ⟨false, [], none, none, none⟩
+  else if b = [0x53] then some ⟨false, [], none, none, some [([0x68, 0x69], 5), ([0x70], 6)]⟩
+  else if b = [0x4c] then some ⟨false, [], none, some [⟨5, 9, some 6, some 77⟩, ⟨5, 0, none, none⟩], none⟩
+  else none
+
+/-- non-vacuity: the WHOLE generated `parse_v3` (through the generated `parse`), interpreted, on a dump with two chunks,
+    a trace-codes block, a string index and a log block: the three records, then the two log events in order (resolved
+    through the inverted index), no exception; the trace codes are the block's payload; the first log event extends both
+    tables, the second (no process, thread 0) does not; the reader ends at the end of the file. -/
+example :
+    (PyIRRd.parseVia Gen.PyIRRd.prog exPlistLogs fromKdBuf ⟨Tables.empty, {}⟩ (encodeV3 exFileLogs)).events.length = 3 ∧
+    (PyIRRd.parseVia Gen.PyIRRd.prog exPlistLogs fromKdBuf ⟨Tables.empty, {}⟩ (encodeV3 exFileLogs)).outs.length = 5 ∧
+    (PyIRRd.parseVia Gen.PyIRRd.prog exPlistLogs fromKdBuf ⟨Tables.empty, {}⟩ (encodeV3 exFileLogs)).logs =
+      [⟨0, [0x68, 0x69], 9, [0x70], 77⟩, ⟨1, [0x68, 0x69], 0, [], 0⟩] ∧
+    (PyIRRd.parseVia Gen.PyIRRd.prog exPlistLogs fromKdBuf ⟨Tables.empty, {}⟩ (encodeV3 exFileLogs)).err = none ∧
+    (PyIRRd.parseVia Gen.PyIRRd.prog exPlistLogs fromKdBuf ⟨Tables.empty, {}⟩ (encodeV3 exFileLogs)).md.traceCodes =
+      [0x41, 0x0a] ∧
+    (PyIRRd.parseVia Gen.PyIRRd.prog exPlistLogs fromKdBuf ⟨Tables.empty, {}⟩ (encodeV3 exFileLogs)).tables =
+      ⟨[(7, 100), (8, 100), (9, 77)], [(100, [0xc3, 0xa9]), (77, [0x70])]⟩ ∧
+    (PyIRRd.parseVia Gen.PyIRRd.prog exPlistLogs fromKdBuf ⟨Tables.empty, {}⟩ (encodeV3 exFileLogs)).tmTables =
+      ⟨[(7, 100), (8, 100)], [(100, [0xc3, 0xa9])]⟩ ∧
+    (PyIRRd.parseVia Gen.PyIRRd.prog exPlistLogs fromKdBuf ⟨Tables.empty, {}⟩ (encodeV3 exFileLogs)).rd.pos =
+      (encodeV3 exFileLogs).length := by
+  decide +kernel
 
 end KdVerif.C03
